@@ -37,7 +37,8 @@ fn run_one(m: &Machine, prior: u64) -> Result<Run, String> {
         catch(|| p.sim.load_obj_file(&obj))?.map_err(|e| format!("machinery: load failed: {e:?}"))?;
         p.sim.pc = pc;
     }
-    let r = catch(|| p.sim.run_with_limit(LIMIT))?;
+    let limit = if m.pokes.len() > 10_000 { 4_000_000 } else { LIMIT };
+    let r = catch(|| p.sim.run_with_limit(limit))?;
     let err = match &r { Err(SimErr::AccessViolation) => Some("acv"), Err(SimErr::PrivilegeViolation) => Some("priv"), Err(SimErr::IllegalOpcode) | Err(SimErr::InvalidInstrFormat) => Some("illop"), Err(_) => Some("other"), Ok(()) => None };
     let display: Vec<u8> = { let g = p.disp.get_buffer().read().unwrap_or_else(|e| e.into_inner()); g.clone() };
     Ok(Run {
@@ -69,6 +70,18 @@ fn template(i: u64) -> Option<Machine> {
     Some(m)
 }
 
+/// scale: programs that print more than 2^15 / 2^16 bytes (PUTSP of a packed string) before ending in HALT, an illegal opcode, RTI or an access violation
+fn big_template(i: u64) -> Option<Machine> {
+    let n = [32768usize, 65530, 65536, 70001][(i / 4) as usize % 4];
+    let ending: &[u16] = [&[0xF025u16][..], &[0xD000], &[0x8000], &[0x5020, 0x6000]][(i % 4) as usize];
+    let mut m = Machine::user();
+    m.regs = [0, 1, 2, 3, 4, 5, 0xFD00, 7];
+    let mut code = vec![0x2000 | (2 + ending.len() as u16), 0xF024]; code.extend_from_slice(ending); code.push(0xF025); code.push(0x4000); // LD R0, PTR ; PUTSP ; ending ; HALT ; PTR
+    for (k, w) in code.iter().enumerate() { m.pokes.push((0x3000 + k as u16, *w)); }
+    for k in 0..n.div_ceil(2) { let (a, b) = (0x41 + (2 * k % 26) as u16, if 2 * k + 1 < n { 0x41 + ((2 * k + 1) % 26) as u16 } else { 0 }); m.pokes.push((0x4000 + k as u16, a | b << 8)); }
+    m.pokes.push((0x4000 + n.div_ceil(2) as u16, 0));
+    Some(m)
+}
 /// A10: under ignore_privilege a program can execute RTI while in user mode (directly or by jumping into OS code); that has no ISA
 /// meaning and may turn it into supervisor code, so such programs are not "user-mode programs" and are not judged.
 fn executes_user_rti(m: &Machine) -> bool {
@@ -142,6 +155,15 @@ pub fn run(ctx: &Ctx) -> Report {
         }
     });
     rep.absorb(r);
+    let r = sweep(ctx, 16, 1, |i, acc| {
+        let Some(m) = big_template(i) else { return };
+        acc.evals += 1; acc.transitions += 2; acc.traces += 1; acc.count("large_output_templates", 1);
+        match check_on(&m, &format!("large-output template {i} (PUTSP of a long packed string, then ending {})", i % 4), 0) {
+            Ok(k) => { acc.count(&format!("ended_{k}"), 1); if k != "unjudged" { acc.nontrivial += 1; } }
+            Err((sig, d)) => acc.violation(sig, format!("b:{i}"), if d.len() > 1500 { let mut e = 1500; while !d.is_char_boundary(e) { e -= 1; } d[..e].to_string() } else { d }),
+        }
+    });
+    rep.absorb(r);
     // every 1-instruction program (and in thorough every 2-instruction program) again on reused simulators
     let rl = ctx.pick(1usize, 2usize);
     let n = 40u64.pow(rl as u32);
@@ -162,6 +184,6 @@ pub fn run(ctx: &Ctx) -> Report {
 pub fn replay(case: &str) -> Option<String> {
     let p: Vec<&str> = case.split(':').collect();
     let n = |i: usize| -> Option<u64> { p.get(i)?.parse().ok() };
-    let r = match *p.first()? { "p" => { let v = n(3).unwrap_or(0); let (mut m, w) = program_machine(n(1)? as usize, n(2)?, (v & 1) * 2); if v == 2 { m.strict = true; m.uninit_regs = 0x3F; } check(&m, &format!("program {w:x?}")) } "t" => { let mut m = template(n(1)?)?; let mut prior = n(2).unwrap_or(0); if prior == 5 { m.strict = true; m.uninit_regs = 0x3D; prior = 0; } check_on(&m, "template", prior) } "r" => { let (m, w) = program_machine(n(1)? as usize, n(2)?, 0); check_on(&m, &format!("program {w:x?}"), n(3)?) } _ => return None };
+    let r = match *p.first()? { "p" => { let v = n(3).unwrap_or(0); let (mut m, w) = program_machine(n(1)? as usize, n(2)?, (v & 1) * 2); if v == 2 { m.strict = true; m.uninit_regs = 0x3F; } check(&m, &format!("program {w:x?}")) } "b" => check_on(&big_template(n(1)?)?, "large-output template", 0), "t" => { let mut m = template(n(1)?)?; let mut prior = n(2).unwrap_or(0); if prior == 5 { m.strict = true; m.uninit_regs = 0x3D; prior = 0; } check_on(&m, "template", prior) } "r" => { let (m, w) = program_machine(n(1)? as usize, n(2)?, 0); check_on(&m, &format!("program {w:x?}"), n(3)?) } _ => return None };
     r.err().map(|(s, d)| format!("[{s}] {d}"))
 }
